@@ -226,6 +226,7 @@ def main(argv: List[str]) -> int:
     ap.add_argument("property")
     ap.add_argument("--tier", default=os.environ.get("VERIF_TIER", "quick"), choices=["quick", "thorough"])
     ap.add_argument("--replay", default=None)
+    ap.add_argument("--relock", action="store_true", help="maintenance: record the obligations discharged now in obligations.lock.json")
     args = ap.parse_args(argv)
     seed = int(os.environ.get("VERIF_SEED", "0") or 0)
     os.environ["DATA_ALGEBRA_VERIF"] = "1"
@@ -248,7 +249,15 @@ def main(argv: List[str]) -> int:
         rep.errors.append(traceback.format_exc()[-1500:])
         write_evidence(rep, args.tier, seed, time.time() - t0, 0, {})
         return 3
-    return finish(rep, args.tier, seed, t0)
+    code = finish(rep, args.tier, seed, t0)
+    if args.relock:
+        from pyvc.check import write_lock
+        if code == 0 and not rep.errors:
+            write_lock(args.property, rep)
+            print("lock written for %s: %d discharged obligations" % (args.property, sum(1 for o in rep.obligations if o.status == "discharged")))
+        else:
+            print("lock NOT written (exit %d)" % code)
+    return code
 
 
 if __name__ == "__main__":
